@@ -1,27 +1,79 @@
 #!/usr/bin/env python3
-"""usage: mkprompts.py <mutroot> <template prompt of another property> <template id> <id>...
+"""usage: mkprompts.py <mutroot> <first k> <id>...
 Prepares <mutroot>/<id>/{wt,out,property.json} and <mutroot>/prompt_<id>.txt for a further round of independently written
-breaking changes. The prompt carries only the property text and one-line summaries of the changes earlier rounds produced
-(so that they are not repeated); nothing from /verif's checks."""
-import json, os, subprocess, sys, glob, re
-root, tmpl_path, tmpl_id = sys.argv[1:4]
-ids = sys.argv[4:]
+breaking changes. The prompt carries only the property's text and one-line summaries of the changes earlier rounds produced
+(so that they are not repeated); nothing from /verif's checks, rules or design. The sub-agent is asked for two changes,
+numbered m<first k> and m<first k + 1>."""
+import json, os, subprocess, sys, glob
+root, k0 = sys.argv[1], int(sys.argv[2])
+ids = sys.argv[3:]
 props = {json.loads(l)['id']: json.loads(l) for l in open('/verif/properties.jsonl')}
-tmpl = open(tmpl_path).read()
-head, _, _ = tmpl.partition('\n - ')
-old_root = re.search(r'scratch git worktree of the project at: (\S+)/' + tmpl_id + '/wt', head).group(1)
+EXTRA = {}  # id -> extra one-line summaries (changes whose files were lost)
+if os.path.exists('/verif/tools/lost_round10_summaries.json'):
+    EXTRA = json.load(open('/verif/tools/lost_round10_summaries.json'))
+
+TEMPLATE = """You are helping to evaluate how well an (undisclosed) verification effort protects one semantic property of the open-source project
+worldcoin/semaphore-mtb: a Go service and gnark Groth16 circuits that prove batched Poseidon Merkle-tree insertions and deletions, with in-circuit
+Keccak and Poseidon gadgets, an HTTP prover server, a CLI (main.go) and a Lean extraction of the circuits.
+
+You have your own scratch git worktree of the project at: {wt}   (detached at the pinned commit). Work ONLY there and in {out}.
+Do not read or touch /repo or /verif, and do not look for verification material anywhere: what you write must be independent of it.
+
+THE PROPERTY ({pid}: {title})
+{statement}
+
+It must hold for: {quant}
+Why the existing tests cannot settle it: {why}
+Files it is anchored in: {files}
+
+YOUR TASK: write TWO different changes to the project's non-test source, m{k0} and m{k1}, each of which BREAKS this property while
+ (1) the project still compiles (`go build ./...` and `go test -vet=off -count=1 -run '^$' ./...`),
+ (2) the existing test suite still passes (`go test -vet=off -count=1 ./...`; TestInsertionHappyPath, TestInsertionWrongInput and TestWrongMethod are
+     known-flaky and not counted; every other test must pass), and
+ (3) the breakage needs something SPECIFIC to manifest - a particular interleaving, a crash or fault at a particular point, a multi-step sequence of
+     operations, an unusual input or dimension, or two cooperating sites that each look fine alone - NOT something ordinary use would expose at once.
+Each change should look like a plausible maintenance commit a reviewer might wave through (a refactor, an optimisation, hardening, a small feature,
+a library modernisation) and should be realistic, not an obviously planted bug. The two changes must use different mechanisms and preferably touch
+different code. Read the code the property is anchored in first.
+
+For each change also write a DEMONSTRATION: a Go test file (name it zz_demo{k0}_test.go / zz_demo{k1}_test.go, placed in whatever package it needs) or a
+small program, which FAILS (non-zero exit) with the change applied and PASSES (exit 0) without it, runs offline, and takes well under five minutes
+(keep circuits small: depth <= 4, batch <= 3; setup at depth 3 takes seconds). The demonstration must exercise the real code, not a copy of it.
+
+Environment: no network at all. In every shell call first run:  export GOFLAGS=-mod=mod GOPROXY=off GOSUMDB=off GOTOOLCHAIN=local
+The machine is shared with other agents doing the same for other properties: a full suite run takes 2-4 minutes, do not run it more often than you need.
+
+DELIVERABLES, in {out}/ (for K = {k0} and {k1}):
+  mK.patch.diff   `git diff` of the non-test source change only, against the pinned commit; it must apply with `git apply` to a clean checkout and
+                  must NOT contain the demonstration file
+  the demonstration file(s), under any name
+  mK.meta.json    {{"summary": "<what the change does, as its commit message would describe it, plus where>",
+                   "why_breaks": "<which clause of the property fails and why>",
+                   "needs_to_manifest": "<the specific input / schedule / fault / sequence needed>",
+                   "demo_files": [{{"src": "<file name in {out}>", "dest": "<path in the repository where it must be placed>"}}],
+                   "demo_cmd": "<one shell command, run from the repository root, exit 0 without the change and non-zero with it>"}}
+Before you finish, confirm for each change, starting from a clean checkout (`git checkout -- . && git clean -fdq`): the demonstration passes without the
+change; with the change applied the project builds, the demonstration fails, and the suite passes. If you cannot make a change satisfy all of this,
+replace it by another one rather than delivering it. In your final message give, per change, one paragraph: what it is and what you ran.
+
+Earlier rounds already produced the following changes for this property. Do NOT repeat them or close variants of them - find different mechanisms,
+in different places if you can:
+"""
+
 for pid in ids:
+    p = props[pid]
     d = f'{root}/{pid}'
     os.makedirs(d + '/out', exist_ok=True)
-    json.dump(props[pid], open(d + '/property.json', 'w'), indent=1)
+    json.dump(p, open(d + '/property.json', 'w'), indent=1)
     if not os.path.isdir(d + '/wt'):
         subprocess.check_call(['git', '-C', '/repo', 'worktree', 'add', '-q', '--detach', d + '/wt', 'HEAD'])
-    h = head.replace(old_root, root).replace(tmpl_id, pid)
-    h = h.replace(props[tmpl_id]['statement'], props[pid]['statement'])
-    assert props[pid]['statement'] in h
     earlier = []
     for m in sorted(glob.glob(f'/verif/seeded/{pid}/m*/meta.json')) + sorted(glob.glob(f'/verif/seeded/_*/{pid}_*/meta.json')):
         s = json.load(open(m)).get('summary') or ''
         earlier.append(' - ' + ' '.join(s.split())[:420])
-    open(f'{root}/prompt_{pid}.txt', 'w').write(h + '\n' + '\n'.join(earlier) + '\n')
+    for s in EXTRA.get(pid, []):
+        earlier.append(' - ' + s)
+    h = TEMPLATE.format(wt=d + '/wt', out=d + '/out', pid=pid, title=p['title'], statement=p['statement'], quant=p['quantifier']['text'],
+                        why=p['why_tests_cant'], files=', '.join(p['anchors'].get('files', [])), k0=k0, k1=k0 + 1)
+    open(f'{root}/prompt_{pid}.txt', 'w').write(h + '\n'.join(earlier) + '\n')
     print(pid, len(earlier), 'earlier changes listed')
